@@ -257,9 +257,9 @@ def specListId {α} [DecidableEq α] (l : List α) : Option α → Val
     | some i => .int (i + 2)
     | none => .int 1
 
-/-- one ACL slot: all zeros except `position` when the slot is empty; a slot the ACL does not have cannot be encoded (F-6, open) -/
+/-- one ACL slot: all zeros except `position` when the slot is empty — or when the ACL has no such slot at all (no rule can be there) -/
 def AclObs.specRule (o : AclObs) (i : Nat) : Option (Option RuleState) → Val
-  | none => .raised
+  | none => aclEmptyRule i
   | some none => aclEmptyRule i
   | some (some r) =>
     .dict (aclRuleDict (.int i) (.int r.action) (specListId o.ips r.srcIp) (specListId o.wcs r.srcWc) (specListId o.ports r.srcPort)
